@@ -40,7 +40,7 @@ pub const VARIANTS: usize = 7;
 /// written before the run, and every item consumes 8/16-bit views only or fully overwrites what
 /// it stores - results must not pick up the random upper bits of the parent registers.
 const E_VARIANT: usize = 7;
-const ITEMS_E: [(&str, &[u8]); 9] = [
+const ITEMS_E: [(&str, &[u8]); 13] = [
     ("mov ah,5", &[0xB4, 0x05]),
     ("mov cx,0x0306", &[0x66, 0xB9, 0x06, 0x03]),
     ("movzx ebx,ah; mov [rsp-16],rbx", &[0x0F, 0xB6, 0xDC, 0x48, 0x89, 0x5C, 0x24, 0xF0]),
@@ -50,6 +50,11 @@ const ITEMS_E: [(&str, &[u8]); 9] = [
     ("div ch", &[0xF6, 0xF5]),
     ("cmp al,ah; jne +0", &[0x38, 0xE0, 0x75, 0x00]),
     ("setb dl; movzx edx,dl; mov [rsp-32],rdx", &[0x0F, 0x92, 0xC2, 0x0F, 0xB6, 0xD2, 0x48, 0x89, 0x54, 0x24, 0xE0]),
+    // SETcc always writes its byte - 0 as much as 1 - also into a register nothing has written yet
+    ("cmp al,al; setne sil; movzx edi,sil; mov [rsp-40],rdi", &[0x38, 0xC0, 0x40, 0x0F, 0x95, 0xC6, 0x40, 0x0F, 0xB6, 0xFE, 0x48, 0x89, 0x7C, 0x24, 0xD8]),
+    ("cmp al,al; sete sil; movzx edi,sil; mov [rsp-40],rdi", &[0x38, 0xC0, 0x40, 0x0F, 0x94, 0xC6, 0x40, 0x0F, 0xB6, 0xFE, 0x48, 0x89, 0x7C, 0x24, 0xD8]),
+    ("cmp al,al; setb r8b; movzx r9d,r8b; mov [rsp-48],r9", &[0x38, 0xC0, 0x41, 0x0F, 0x92, 0xC0, 0x45, 0x0F, 0xB6, 0xC8, 0x4C, 0x89, 0x4C, 0x24, 0xD0]),
+    ("cmp al,al; setae r8b; movzx r9d,r8b; mov [rsp-48],r9", &[0x38, 0xC0, 0x41, 0x0F, 0x93, 0xC0, 0x45, 0x0F, 0xB6, 0xC8, 0x4C, 0x89, 0x4C, 0x24, 0xD0]),
 ];
 fn e_maxlen(maxlen: usize) -> usize {
     maxlen.min(4)
@@ -562,7 +567,7 @@ pub fn run(tier: Tier) -> i32 {
     run.cov("traces_validated_against_impl", json!(cases * 4));
     run.cov("evaluations", json!(cases));
     run.cov("distinct_nontrivial", json!(distinct.len()));
-    run.cov("rule", json!("one case = (program of <= L items over 15 instructions/idioms incl. brk via the built-in handler (query, and growth by 64 KiB), a division whose divisor may be zero, int3, a load, a store and a jump through RBX that fault when RBX is unmapped; variant A: every register written, variant B: only RAX RBX RCX RSP written, the alphabet never reads another register before writing it, variant C: every general-purpose register holds the same unmapped address, variant D: as A with the stack and the argument strings placed by init_stack and init_stack_program_start next to code at 0x1000; variant F: as A, but the machine is loaded from a generated ELF whose symbol table names every address twice; variant E, with its own 9-item alphabet and programs <= 4: only the low 16 bits of RAX RBX RCX RDX written, items that consume 8/16-bit views only); every case runs on 3 independently constructed machines in this process (two by execute(), the third by single steps interleaved with the steps of a decoy machine) and once in a separately exec'd process that meets the cases in the opposite order; digests of registers, flags, every area, count, trace, call stack, their renderings, result and error text must be equal; distinct_nontrivial = distinct digests"));
+    run.cov("rule", json!("one case = (program of <= L items over 15 instructions/idioms incl. brk via the built-in handler (query, and growth by 64 KiB), a division whose divisor may be zero, int3, a load, a store and a jump through RBX that fault when RBX is unmapped; variant A: every register written, variant B: only RAX RBX RCX RSP written, the alphabet never reads another register before writing it, variant C: every general-purpose register holds the same unmapped address, variant D: as A with the stack and the argument strings placed by init_stack and init_stack_program_start next to code at 0x1000; variant F: as A, but the machine is loaded from a generated ELF whose symbol table names every address twice; variant E, with its own 13-item alphabet and programs <= 4: only the low 16 bits of RAX RBX RCX RDX written, items that consume 8/16-bit views only); every case runs on 3 independently constructed machines in this process (two by execute(), the third by single steps interleaved with the steps of a decoy machine) and once in a separately exec'd process that meets the cases in the opposite order; digests of registers, flags, every area, count, trace, call stack, their renderings, result and error text must be equal; distinct_nontrivial = distinct digests"));
     run.cov("exhaustive", json!(true));
     run.cov("program_max_length", json!(maxlen));
     run.cov("machines_per_case", json!(4));
